@@ -49,6 +49,24 @@ __CPROVER_ensures(VL_COMPLETE(info, result))
 __CPROVER_assigns(result != NULL: *result; g_vl_calls, g_vl_prev, g_vl_fail, g_vl_na, g_vl_il_len[0], g_vl_il_len[1], g_vl_iv[0].value, g_vl_iv[1].value, g_vl_shape_known, g_vl_shape);
 #endif
 
+#if defined(VL_MODE_RFCTIME)
+/* INT-02, RFC3161 part (first-element model): OK / KSI_VERIFICATION_FAILURE (times differ) / another error (no first chain) */
+static int rfc3161_verifyAggrTime(KSI_CTX *ctx, const KSI_Signature *sig)
+__CPROVER_requires((ctx == NULL || ctx == VR_CTX) && (sig == NULL || sig == &g_vr_sig))
+__CPROVER_ensures(vr_exp_rfc_aggr_time(ctx, sig) == VR_RFC_ANY || vr_rfc_class(__CPROVER_return_value) == vr_exp_rfc_aggr_time(ctx, sig))
+__CPROVER_assigns();
+#endif
+#if defined(VL_MODE_RFCIDX)
+/* INT-12, RFC3161 part: OK iff same length and all elements equal (and all of them were compared) */
+static int rfc3161_verifyChainIndex(KSI_CTX *ctx, const KSI_Signature *sig)
+__CPROVER_requires((ctx == NULL || ctx == VR_CTX) && (sig == NULL || sig == &g_vr_sig))
+__CPROVER_requires(g_ri_calls == 0 && !g_ri_first_fetched && !g_ri_mismatch && g_ri_len[0] <= 0xffffffffUL && g_ri_len[1] <= 0xffffffffUL)
+__CPROVER_requires(g_vr_chain0.chainIndex == &g_ri_l[0] && g_vr_rfc.chainIndex == &g_ri_l[1])
+__CPROVER_ensures(vr_rfc_class(__CPROVER_return_value) == vr_exp_rfc_chain_index(ctx, sig))
+__CPROVER_ensures(IMPLIES(__CPROVER_return_value == KSI_OK && ctx != NULL && sig != NULL && sig->rfc3161 != NULL, g_ri_calls == g_ri_len[0] && !g_ri_first_fetched))
+__CPROVER_assigns(g_ri_calls, g_ri_first_fetched, g_ri_mismatch, g_ri_v[0].value, g_ri_v[1].value);
+#endif
+
 #if defined(VL_MODE_IDX)
 static int rfc3161_verifyChainIndex(KSI_CTX *ctx, const KSI_Signature *sig)
 __CPROVER_ensures(__CPROVER_return_value == g_vl_rfc_ret)
